@@ -292,9 +292,17 @@ func compareSuffixArrays(a, b []suffix) int {
 		}
 	}
 
-	// If all compared suffixes are equal, the longer array is "smaller"
-	// This means "alpha_pre" < "alpha" (more suffixes = less stable)
-	return compareInt(len(b), len(a))
+	// If all compared suffixes are equal, the first additional suffix decides,
+	// compared against "no suffix": an additional pre-release suffix makes the
+	// version older (alpha_pre < alpha), an additional post-release suffix
+	// makes it newer (alpha_p1 > alpha)
+	if len(a) > minLen {
+		return compareSuffixes(a[minLen], suffix{name: "", number: 0})
+	}
+	if len(b) > minLen {
+		return compareSuffixes(suffix{name: "", number: 0}, b[minLen])
+	}
+	return 0
 }
 
 // compareSuffixes compares two individual suffixes
